@@ -15,6 +15,8 @@ ENGINES = [
      'serves_properties': ['C01', 'C04', 'C05', 'C06', 'C07']},
     {'name': 'rapid-proc', 'path': 'harness/proc', 'kind_free_text': 'rapid state machines driving the real fzf binary in a private tmux server through --listen, send-keys and resize',
      'serves_properties': ['C07', 'C08', 'C09', 'C14', 'C15', 'C16', 'C18', 'C19', 'C20']},
+    {'name': 'go-fuzz', 'path': 'harness/inpkg', 'kind_free_text': 'native go test -fuzz targets (thorough tier only) compiled into the fzf packages with coverage instrumentation: byte-level targets with the oracle inside (ANSI stripping, HTTP request handling, option parsing, field splitting) and rapid.MakeFuzz wrappers of the rapid properties',
+     'serves_properties': ['C02', 'C03', 'C05', 'C10', 'C11', 'C12', 'C16', 'C17', 'C18']},
     {'name': 'oracle', 'path': 'harness/oracle', 'kind_free_text': 'independent reference models (no fzf import): scoring DP, alignment enumerator, query grammar evaluator, record/field splitters, ANSI/SGR interpreter, readline/selection model, history model, walk model',
      'serves_properties': []},
     {'name': 'driver', 'path': 'check', 'kind_free_text': 'python3 driver: rebuilds harnesses from the current /repo tree, shards rapid runs over 16 cores, merges measured case statistics into evidence/<id>.json, maps failures to VIOLATION / KNOWN-FINDING / inconclusive',
@@ -22,7 +24,10 @@ ENGINES = [
 ]
 
 NOTES = ('All checks: ./check <ID> with VERIF_TIER / VERIF_SEED. Exit 0 held, 1 violation (VIOLATION line), 2 inconclusive (infrastructure). '
-         'Known findings and repaired defects: KNOWN_FINDINGS.txt. Sensitivity patches: seeded/ and mutants/. Design: DESIGN.md.')
+         'Known findings and repaired defects: KNOWN_FINDINGS.txt. Sensitivity patches (written by independent sub-agents, confirmed here): seeded/. Design: DESIGN.md.')
+
+FUZZ_NOTE = '; thorough tier adds coverage-guided native Go fuzzing (go test -fuzz, byte-level targets and rapid.MakeFuzz wrappers) of the same oracles'
+FUZZ_IDS = ['C02', 'C03', 'C05', 'C10', 'C11', 'C12', 'C16', 'C17', 'C18']
 
 NOT_YET = {}
 
@@ -171,3 +176,6 @@ META['C20'] = dict(
     technique='stateful property-based testing (rapid) of the live binary with an instrumented preview command: invocation log + process table + captured pane against the expansion for the focused line at quiescence',
     level_text='Exploration: live sessions with instant / slow / never-ending / incremental preview commands and action histories with generated gaps and bursts; checked at quiescence points and after exit.',
     level_note='Timing relative to process start-up is varied, not controlled; quiescence = a state that stops changing; liveness cap 40 s.')
+
+for _id in FUZZ_IDS:
+    META[_id]['technique'] += FUZZ_NOTE
